@@ -239,5 +239,39 @@ func allProps() []*propInfo {
 				{ID: "C11.6", Doc: "[dom] byte budget", Run: ruleC11_6},
 			},
 		},
+		{
+			ID: "C18",
+			Explanation: "Static necessary conditions of 'an injected fault fires exactly its count, only on matching calls': " +
+				"C18.1 the shared remaining count is accessed only through sync/atomic (plain reads only on by-value copies); C18.2 in Set.Check, with r the result of atomic.AddInt64(&d.Count,-1), the fault fires for r > 0 and r = 0 and, for r < 0, neither fires nor returns without re-matching (each sign decided separately on the CFG); " +
+				"C18.3 (K3 lockset) Set.faults is read under mu.RLock/Lock and written under mu.Lock; C18.4 Description.match returns true only with count > 0, equal operation, and every injected parameter present and equal; C18.5 prune/Current separate live from exhausted descriptions by count > 0; " +
+				"C18.6 the pooled parameter map of the gRPC interceptor is emptied before the request's fields are written. " +
+				"NOT decided: the exact count min(N, matches) over schedules (C18.1/2 are its memory-ordering and re-check conditions), request-to-parameter extraction for all messages.",
+			Assumptions: []string{"sync/atomic and sync.RWMutex semantics"},
+			Rules: []ruleFn{
+				{ID: "C18.1", Doc: "atomic discipline on Description.Count", Run: ruleC18_1},
+				{ID: "C18.2", Doc: "[K6 sign] fire exactly for a non-negative remainder; re-match on a lost race", Run: ruleC18_2},
+				{ID: "C18.3", Doc: "[lock] fault table under Set.mu", Run: ruleC18_3},
+				{ID: "C18.4", Doc: "[dom] subset match", Run: ruleC18_4},
+				{ID: "C18.5", Doc: "[dom] prune / listing thresholds", Run: ruleC18_5},
+				{ID: "C18.6", Doc: "[dom] pooled parameter map is emptied", Run: ruleC18_6},
+			},
+		},
+		{
+			ID: "C19",
+			Explanation: "Static necessary conditions of the HTTP push contract: " +
+				"C19.1 the status switch acknowledges exactly for {102,200,201,202,204} (read from the comparisons of resp.StatusCode whose true edge reaches the outcome queue with an ack queue only) and transport errors and every other status reach the nack queue; " +
+				"C19.2 (K9) envelope fields derive from their delivery fields only (Data = base64(payload), Attributes, MessageId, OrderingKey, PublishTime, Subscription, DeliveryAttempt); " +
+				"C19.3 (K6 intervals) inductive invariant of the adaptive window: assuming maxMessages ∈ [1,1000] on entry of Receive every store keeps it there, initial value is a constant in range; " +
+				"C19.4 (K3) window state is accessed only under c.mu (the test-only reader CurrentFlowControl is the named exception); C19.5 Receive reports ids from the ack queues as Ack and ids from the nack queue as Nack. " +
+				"NOT decided: 'never pushed again / pushed again after the backoff' (C03/C04 behaviour), concurrency <= window as a runtime count, out-of-order endpoints.",
+			Assumptions: []string{"net/http reports transport failures as a non-nil error from Client.Do"},
+			Rules: []ruleFn{
+				{ID: "C19.1", Doc: "[tab][dom] status mapping", Run: ruleC19_1},
+				{ID: "C19.2", Doc: "[dep] envelope", Run: ruleC19_2},
+				{ID: "C19.3", Doc: "[K6 interval] window stays in [1,1000]", Run: ruleC19_3},
+				{ID: "C19.4", Doc: "[lock] window state under c.mu", Run: ruleC19_4},
+				{ID: "C19.5", Doc: "[dep] ack/nack queues feed Ack/Nack", Run: ruleC19_5},
+			},
+		},
 	}
 }
